@@ -272,7 +272,27 @@ impl Transform {
                 ));
             }
             match template {
-                Cell::Pair(_, _) => Self::check_template_syntax(template, pattern, ellipsis)?,
+                Cell::Pair(_, _) => {
+                    // The instantiator keeps one cursor per ellipsis variable and
+                    // advances it at every use, so it cannot repeat a subtemplate
+                    // that mentions the same ellipsis variable twice.
+                    if iter.peek() == Some(&ellipsis) {
+                        for variable in &pattern.expanded_variables {
+                            if Self::count_occurrences(template, variable) > 1 {
+                                return Err(InvalidSyntax(format!(
+                                    "{:#} is used more than once under one ellipsis, which is not supported",
+                                    variable
+                                )));
+                            }
+                        }
+                    }
+                    Self::check_template_syntax(template, pattern, ellipsis)?
+                }
+                Cell::Vector(vector) => Self::check_template_syntax(
+                    &Cell::new_list(vector.clone()),
+                    pattern,
+                    ellipsis,
+                )?,
                 Cell::Symbol(_) => {
                     if !pattern.is_variable(template) && iter.peek() == Some(&ellipsis) {
                         return Err(InvalidSyntax(
@@ -291,6 +311,20 @@ impl Transform {
             }
         }
         Ok(())
+    }
+
+    fn count_occurrences(template: &Cell, variable: &Cell) -> usize {
+        match template {
+            Cell::Symbol(_) => (template == variable) as usize,
+            Cell::Pair(car, cdr) => {
+                Self::count_occurrences(car, variable) + Self::count_occurrences(cdr, variable)
+            }
+            Cell::Vector(vector) => vector
+                .iter()
+                .map(|it| Self::count_occurrences(it, variable))
+                .sum(),
+            _ => 0,
+        }
     }
 
     fn contains_expanded_variable(template: &Cell, pattern: &Pattern) -> bool {
